@@ -197,8 +197,12 @@ func (o *OutputPrinter) Run(execCtx ExecutionContext) error {
 		return true
 	})
 	format.Close()
-	buf.WriteTo(liveWriter)
-	liveWriter.Flush()
+	if _, err := buf.WriteTo(liveWriter); err != nil {
+		return fmt.Errorf("couldn't write output: %w", err)
+	}
+	if err := liveWriter.Flush(); err != nil {
+		return fmt.Errorf("couldn't write output: %w", err)
+	}
 
 	return nil
 }
